@@ -299,7 +299,19 @@ PairChecks(t, u) ==
       ck(x, y, sx, sy, tx, ty) == [tmpl |-> "show2", iface |-> "ToString", ty |-> TyName(tx) \o " x " \o TyName(ty),
                                    src |-> <<"println(show2(" \o Lit(tx, x) \o ", " \o Lit(ty, y) \o "))">>,
                                    out |-> sx.o \o sy.o \o <<"<" \o sx.v \o "><" \o sy.v \o ">">>]
-  IN <<ck(a, b, sa, sb, t, u), ck(b, a, sb, sa, u, t)>>
+      \* a closure whose own type mentions only the first type parameter while its body dispatches on the second
+      \* (the instances for one T and several U must not share code)
+      lat(x, y, sy, tx, ty) == [tmpl |-> "later", iface |-> "ToString", ty |-> TyName(tx) \o " x " \o TyName(ty),
+                                src |-> <<"println(later(" \o Lit(tx, x) \o ", " \o Lit(ty, y) \o ")(" \o Lit(tx, x) \o "))">>,
+                                out |-> sy.o \o <<"<" \o sy.v \o ">">>]
+      \* the same with an interface operator on the second parameter inside the closure: key(a) <= key(b) with a constant key
+      kl(x, y, tx, ty) == LET c == Cmp("le", ty, y, y) IN
+                          [tmpl |-> "keyle", iface |-> "Ord", ty |-> TyName(tx) \o " x " \o TyName(ty),
+                           src |-> <<"println(keyle(" \o Lit(tx, x) \o ", " \o Lit(tx, x) \o ", (k: " \o TyName(tx) \o ") -> " \o Lit(ty, y) \o "))">>,
+                           out |-> PrintBool(c)]
+      kls == (IF Implements("Ord", u) /\ CmpInModel("le", u) THEN <<kl(a, b, t, u)>> ELSE <<>>)
+             \o (IF Implements("Ord", t) /\ CmpInModel("le", t) THEN <<kl(b, a, u, t)>> ELSE <<>>)
+  IN <<ck(a, b, sa, sb, t, u), ck(b, a, sb, sa, u, t), lat(a, b, sb, t, u), lat(b, a, sa, u, t)>> \o kls
 
 \* every check at type t: values (1,2) unary; pairs (1,1) (1,2) (2,1) (1,3) binary; partner types for show2
 ChecksOf(t, partners) ==
